@@ -25,6 +25,7 @@ const (
 	Key              // {name}
 	Call             // {fn args...}
 	Seq              // concatenation of children at the same depth (top-level text)
+	Mix              // "prefix{i}suffix": one quoted argument made of constant text around a group reference
 	rawArg           // {fn "children"}: one quoted argument holding the children as its own template (children must not need escaping)
 )
 
@@ -35,6 +36,7 @@ type Node struct {
 	Idx  int    // Ref: group index
 	Args []*Node
 	Bare bool // Lit: print without quotes (only for simple words)
+	Suf  string // Mix: text after the reference (S is the text before it)
 }
 
 func L(s string) *Node              { return &Node{Kind: Lit, S: s} }
@@ -43,6 +45,9 @@ func R(i int) *Node                 { return &Node{Kind: Ref, Idx: i} }
 func K(name string) *Node           { return &Node{Kind: Key, S: name} }
 func C(fn string, a ...*Node) *Node { return &Node{Kind: Call, S: fn, Args: a} }
 func S(a ...*Node) *Node            { return &Node{Kind: Seq, Args: a} }
+func M(pre string, i int, suf string) *Node {
+	return &Node{Kind: Mix, S: pre, Idx: i, Suf: suf}
+}
 
 // esc adds one layer of escaping.
 func esc(s string) string {
@@ -124,6 +129,19 @@ func (n *Node) print(sb *strings.Builder, depth int) {
 		for _, a := range n.Args {
 			a.print(sb, depth)
 		}
+	case Mix:
+		if depth == 0 {
+			sb.WriteString(EscN(n.S, 1) + "{" + strconv.Itoa(n.Idx) + "}" + EscN(n.Suf, 1))
+			return
+		}
+		// the text passes the same 2d+1 scanning passes as a quoted literal; the
+		// reference is read by the last of them (the argument's own compile),
+		// so its braces are protected from the 2d passes before it
+		sb.WriteByte('"')
+		sb.WriteString(EscN(n.S, 2*depth+1))
+		sb.WriteString(EscN("{"+strconv.Itoa(n.Idx)+"}", 2*depth-2))
+		sb.WriteString(EscN(n.Suf, 2*depth+1))
+		sb.WriteByte('"')
 	case rawArg:
 		sb.WriteString("{" + n.S + " \"")
 		for _, a := range n.Args {
@@ -154,7 +172,7 @@ func isBinder(fn string, arg int) bool {
 // Dynamic reports whether the tree contains a group or key reference.
 func (n *Node) Dynamic() bool {
 	switch n.Kind {
-	case Ref, Key:
+	case Ref, Key, Mix:
 		return true
 	}
 	for _, a := range n.Args {
@@ -188,7 +206,7 @@ func (n *Node) Subst(args []*Node) *Node {
 			return args[n.Idx]
 		}
 		return L("")
-	case Lit, Key:
+	case Lit, Key, Mix: // Mix is not used inside function bodies
 		return n
 	}
 	c := &Node{Kind: n.Kind, S: n.S, Idx: n.Idx, Bare: n.Bare, Args: make([]*Node, len(n.Args))}
@@ -206,7 +224,7 @@ func (n *Node) Subst(args []*Node) *Node {
 // substituted bodies, recursively.
 func (n *Node) Inline(defs map[string]*Node) *Node {
 	switch n.Kind {
-	case Lit, Key, Ref:
+	case Lit, Key, Ref, Mix:
 		return n
 	}
 	args := make([]*Node, len(n.Args))
